@@ -6,6 +6,8 @@ import (
 	"sort"
 	"strings"
 	"sync"
+	"sync/atomic"
+	"time"
 
 	"github.com/advancedclimatesystems/gonnx"
 	"github.com/advancedclimatesystems/gonnx/ops/opset13"
@@ -59,7 +61,11 @@ func genC17(dir, tier string, seed int64) {
 	if tier == "thorough" {
 		rounds, runsPer = 12, 40
 	}
+	hung := false
 	for _, cm := range models {
+		if hung {
+			break
+		}
 		base := map[int]string{}
 		ok := true
 		for v := 0; v < cm.nVar; v++ {
@@ -74,7 +80,7 @@ func genC17(dir, tier string, seed int64) {
 		if !ok {
 			continue
 		}
-		for round := 0; round < rounds; round++ {
+		for round := 0; round < rounds && !hung; round++ {
 			pick := []int{4, 8, 16}[r.Intn(3)]
 			for _, nG := range []int{2, 4, 8, 16} {
 				if tier != "thorough" && nG != pick && cm.name[:3] == "fix" {
@@ -86,6 +92,7 @@ func genC17(dir, tier string, seed int64) {
 					continue
 				}
 				var wg sync.WaitGroup
+				var returned int64
 				start := make(chan struct{})
 				stop := make(chan struct{})
 				var mu sync.Mutex
@@ -111,6 +118,7 @@ func genC17(dir, tier string, seed int64) {
 						for k := 0; k < runsPer; k++ {
 							v := (g + k) % cm.nVar
 							out, err, _ := runRec(shared, cm.mk(v))
+							atomic.AddInt64(&returned, 1)
 							if s := outSnap(out, err, cm.outs); s != base[v] {
 								mu.Lock()
 								if bad == "" {
@@ -123,8 +131,20 @@ func genC17(dir, tier string, seed int64) {
 				}
 				p0 := paramSnapshot(shared)
 				close(start)
-				wg.Wait()
+				// a Run that never returns is a violation, not a broken check: the whole concurrent phase
+				// (milliseconds when it works) gets 90 seconds
+				finished := make(chan struct{})
+				go func() { wg.Wait(); close(finished) }()
+				select {
+				case <-finished:
+				case <-time.After(90 * time.Second):
+					hung = true
+				}
 				close(stop)
+				if hung {
+					res.Violations = append(res.Violations, fmt.Sprintf("%s: %d goroutines x %d Runs on one shared Model did not all return within 90 s; %d of %d Runs had returned (deadlock or livelock inside Run; the sequential baseline takes milliseconds). The stream stops here: later models may hang on the same process-wide state", cm.name, nG, runsPer, atomic.LoadInt64(&returned), nG*runsPer))
+					break
+				}
 				<-loaderDone
 				// afterwards: the weights are what they were, and a sequential Run still gives the baseline
 				if bad == "" {
